@@ -4,6 +4,7 @@ package main
 
 import (
 	"fmt"
+	"strings"
 
 	criteria_concealment "github.com/Azbesciak/RealDecisionMaker/lib/logic/biases/criteria-concealment"
 	criteria_mixing "github.com/Azbesciak/RealDecisionMaker/lib/logic/biases/criteria-mixing"
@@ -119,8 +120,9 @@ func c18RefCrit(o *Out, r *Rng, c int) {
 	}
 }
 
-// collisionState: conceal, conceal, then an omission that drops exactly the first concealed criterion
-func collisionState(r *Rng, q *Req, orig *model.DecisionMakingParams, l *model.BiasListener) (*model.DecisionMakingParams, []appliedBias) {
+// gapState: conceal, conceal, then an omission that drops exactly the first concealed criterion: the only
+// prefixed id left is __concealedCriterion__1 while the prefix count is 1 (NotUsedName must count on to ...2)
+func gapState(r *Rng, q *Req, orig *model.DecisionMakingParams, l *model.BiasListener) (*model.DecisionMakingParams, []appliedBias) {
 	cur := orig
 	var done []appliedBias
 	for i := 0; i < 2; i++ {
@@ -173,7 +175,7 @@ func c18Bias(o *Out, r *Rng, c int, bias string, thorough bool) {
 	switch k := r.Intn(20); {
 	case k < 11: // first bias of the sequence
 	case k < 13:
-		cur, prefix = collisionState(r, q, orig, l)
+		cur, prefix = gapState(r, q, orig, l)
 	default:
 		cur, prefix = runPrefix(r, q, orig, l, c18Pool, r.rangeInt(1, 3))
 	}
@@ -215,6 +217,9 @@ func c18Bias(o *Out, r *Rng, c int, bias string, thorough bool) {
 		mo.Class = panicClass(q.Method, msg, first || sameDMP(orig, cur), short, cur)
 		mo.GoOut = msg
 		o.count(short + ":panic:" + mo.Class)
+		if strings.Contains(msg, "already exist") && q.Method != "choquetIntegral" {
+			o.count(short + ":panic-id-already-exists") // repeated mixing of the same pair
+		}
 		if mo.Class == "incoherent-input-state" { // the defect belongs to the bias that produced the state
 			return
 		}
@@ -224,6 +229,20 @@ func c18Bias(o *Out, r *Rng, c int, bias string, thorough bool) {
 	var repSX SX
 	if bias == "criteriaConcealment" {
 		repSX = concealReportSX(res)
+		// how often NotUsedName had to count past an id in use (gap left by an omitted concealed criterion)
+		nPref := 0
+		for _, cr := range cur.Criteria {
+			if strings.HasPrefix(cr.Id, "__concealedCriterion__") {
+				nPref++
+			}
+		}
+		first := "__concealedCriterion__"
+		if nPref > 0 {
+			first = fmt.Sprintf("__concealedCriterion__%d", nPref)
+		}
+		if id := res.Props.(criteria_concealment.CriteriaConcealmentResult).AddedCriteria[0].Id; id != first {
+			o.count("conceal:name-counted-past-used-id")
+		}
 	} else {
 		repSX = mixReportSX(res)
 		if res.Props == nil {
